@@ -29,6 +29,7 @@ Dispatch(St, e) ==
       [] e.op = "iter"     -> IF B(e.a.sorted) THEN IterKeys(St, B(e.a.rev)) ELSE Iter(St, B(e.a.rev))
       [] e.op = "stats"    -> Stats(St, B(e.a.en), B(e.a.rs))
       [] e.op = "tick"     -> Res(St, RNone, FALSE)
+      [] e.op = "close"    -> Res(St, RNone, FALSE)      \* closing a handle changes nothing
       [] OTHER             -> Res(St, R("unknown-op", <<>>), FALSE)
 
 =============================================================================
